@@ -258,6 +258,21 @@ def check_C14(ctx):
             c["longdesc"] = rng.choice(["", "long description of " + c["name"].split()[0]])
         version = {"name": "V version", "text": "v1.2"} if rng.random() < 0.5 else None
         argv = flat_argv(path, per_level)
+        # a help token after a "--" inside one level's own arguments is ordinary data
+        if rng.random() < 0.5:
+            lvl = rng.randrange(len(per_level))
+            pl = [list(x) for x in per_level]
+            k = rng.randint(0, len(pl[lvl]))
+            tok = rng.choice(["-h", "--help"])
+            for t in (tok, "zz"):
+                pl2 = [list(x) for x in pl]
+                pl2[lvl] = pl2[lvl][:k] + ["--"] + ["pp" for _ in range(rng.randint(0, 1))] + [t] + pl2[lvl][k:]
+                if t != tok:
+                    pl2[lvl] = cases[-1]["_pl"][:]
+                    pl2[lvl][pl2[lvl].index(tok, k)] = "zz"
+                a3 = flat_argv(path, pl2)
+                cases.append({"op": "run", "env": {}, "version": version, "root": root, "argv": a3, "_pl": pl2[lvl]})
+                meta.append(("data" if t == tok else "data-twin", 0, root))
         # the help token at every position
         for pos in range(len(argv) + 1):
             tok = rng.choice(["-h", "--help"])
@@ -272,10 +287,22 @@ def check_C14(ctx):
                 cases.append({"op": "run", "env": {}, "version": version, "root": root, "argv": argv[:1] + [vt] + argv[1:]})
                 meta.append(("version-not-first", 1, root))
     res = correspond(ctx, cases, ["outcome", "trace", "stderr"], "help token at every position")
-    stats = {"help": 0, "after_dd": 0, "version": 0}
-    for c, (kind, pos, root) in zip(cases, meta):
+    stats = {"help": 0, "after_dd": 0, "version": 0, "data_pairs": 0}
+    for idx, (c, (kind, pos, root)) in enumerate(zip(cases, meta)):
         a, _ = res[c["id"]]
         argv = c["argv"]
+        if kind == "data":
+            # the twin has "zz" instead of the help token: same end, same callbacks
+            a2, _ = res[cases[idx + 1]["id"]]
+            stats["data_pairs"] += 1
+            # only when no help token precedes the "--" anywhere (then help wins, for both)
+            if diff_obs(a, a2, ["outcome", "trace"]):
+                ctx.violation("help-as-data", "%r and %r must behave alike (a help token after -- in a command's own "
+                              "arguments is data): %r %r vs %r %r" % (argv, cases[idx + 1]["argv"], a["outcome"], a["trace"],
+                                                                      a2["outcome"], a2["trace"]), case=c, variant=cases[idx + 1])
+            continue
+        if kind == "data-twin":
+            continue
         if kind == "help":
             if "--" in argv[:pos]:
                 stats["after_dd"] += 1
@@ -506,6 +533,22 @@ def check_C13(ctx):
                 root2 = gen.mkcmd("app", decls=[d2], spec="[-x]" if isopt else "[ARG]", policy=0)
                 cases.append({"op": "run", "env": {"VE_T": t}, "version": None, "root": root2, "argv": [],
                               "_kind": kind, "_tok": t, "_route": "env", "_isopt": isopt})
+    # several command-line tokens for one multi-valued variable: every one of them must convert
+    seqs = []
+    for kind in ("ints", "floats", "strings"):
+        elem = ELEM[kind]
+        good = VALID[elem]
+        bad = INVALID[elem] or ["x"]
+        for isopt in (True, False):
+            for n in (2, 3, 4):
+                for mask in itertools.product([True, False], repeat=n):
+                    ts = [rng.choice(good) if g else rng.choice([b for b in bad if b] or ["x"]) for g in mask]
+                    d = (gen.mkopt if isopt else gen.mkarg)(kind, "x val" if isopt else "ARG", sbu=True, **{"def": []})
+                    argv = [("-x=" + t) for t in ts] if isopt else ["--"] + ts
+                    root = gen.mkcmd("app", decls=[d], spec="-x..." if isopt else "ARG...", policy=0)
+                    seqs.append({"op": "run", "env": {}, "version": None, "root": root, "argv": argv,
+                                 "_kind": kind, "_toks": ts, "_isopt": isopt})
+    res_seq = correspond(ctx, seqs, ["outcome", "trace", "values"], "token sequences for multi-valued variables")
     res = correspond(ctx, cases, ["outcome", "trace", "values"], "tokens x kinds x opt/arg x route")
     strs = set(toks)
     for t in toks:
@@ -538,6 +581,17 @@ def check_C13(ctx):
             if not accepted(a) or a["values"].get(key) != exp:
                 ctx.violation("strconv", "%s from the environment value %r: got %r / %r, expected %r"
                               % (kind, t, a["outcome"], a["values"].get(key), exp), case=c)
+    tbl2 = core.oracle({t for c in seqs for t in c["_toks"]})
+    for c in seqs:
+        a, _ = res_seq[c["id"]]
+        ps = [parse_elem(tbl2, ELEM[c["_kind"]], t) for t in c["_toks"]]
+        key = "app|" + c["root"]["decls"][0]["name"]
+        if all(ok for ok, _ in ps):
+            if not accepted(a) or a["values"].get(key) != [v for _, v in ps]:
+                ctx.violation("strconv", "%s with tokens %r: got %r / %r" % (c["_kind"], c["_toks"], a["outcome"], a["values"].get(key)), case=c)
+        elif a["outcome"] != ("ret", "conv") or a["trace"]:
+            ctx.violation("strconv", "%s with tokens %r (one does not convert): the invocation ended %r with trace %r"
+                          % (c["_kind"], c["_toks"], a["outcome"], a["trace"]), case=c)
     ctx.stream("tokens x kinds x opt/arg x route", 0, tokens=len(toks), **stats)
     ctx.sample({"kind": "int", "token": "9223372036854775808", "expected": "usage error"})
     return ("a corpus of %d tokens (signs, leading zeros, 64-bit boundaries, 0x/0b/0o, underscores, exponents, hex floats, "
